@@ -21,9 +21,9 @@ GOENV = dict(os.environ, GOFLAGS="-mod=mod", GOPROXY="off", GOSUMDB="off", GOTOO
              CGO_ENABLED="0")
 
 ALLOWED_AXIOMS_PREFIX = (
-    # primitive types/operations and the stdlib's float specification axioms
-    "PrimFloat.", "Uint63.", "PrimInt63.", "FloatAxioms.", "FloatOps.", "Sint63.",
-    "float", "int",
+    # Coq's primitive machine integers / floats and the standard library's own
+    # specification axioms for them (named in the trusted base)
+    "PrimFloat.", "PrimInt63.", "FloatAxioms.", "Uint63Axioms.", "Uint63.", "Sint63Axioms.",
 )
 
 
@@ -211,41 +211,47 @@ def coq_eval_terms(name, imports, terms, timeout=600):
 
 def audit_theorems(prop, module, theorems):
     """Print Assumptions for every listed theorem of the property module.
-    Returns (obligations, discharged, axioms_by_theorem, problems)."""
+    Returns (obligations, discharged, axioms_by_theorem, problems).  The
+    module is Required but not Imported so that every axiom is printed with
+    its qualified name."""
     adir = os.path.join(BUILD, "audit")
     os.makedirs(adir, exist_ok=True)
     path = os.path.join(adir, "Audit_%s.v" % prop)
     with open(path, "w") as f:
-        f.write("From Calc Require Import %s.\n" % module)
+        f.write("Require Import Coq.Strings.String.\nFrom Calc Require %s.\n" % module)
         for t in theorems:
-            f.write('Print Assumptions %s.\n' % t)
-            f.write('Check %s.\n' % t)
+            f.write('Eval compute in ("@@BEGIN %s")%%string.\n' % t)
+            f.write('Print Assumptions Calc.%s.%s.\n' % (module, t))
+        f.write('Eval compute in ("@@END")%string.\n')
     rc, out, err = coqc_file(path, timeout=900)
     problems = []
     axioms = {}
     if rc != 0:
-        problems.append("audit of %s does not compile: %s" % (module, (out + err)[-1500:]))
+        problems.append("audit of %s does not compile (a theorem is missing or its proof is broken): %s"
+                        % (module, (out + err)[-1500:]))
         return len(theorems), 0, axioms, problems
-    # split per theorem: each Print Assumptions block is followed by its Check line
-    blocks = re.split(r"\n(?=\S+\s*\n?\s*:)", out)
-    pos = 0
+    chunks = re.split(r'=\s*"@@(?:BEGIN |END)', out)
+    found = {}
+    for ch in chunks[1:]:
+        m = re.match(r'([\w\']+)"', ch)
+        if m:
+            found[m.group(1)] = ch
     discharged = 0
     for t in theorems:
-        m = re.search(r"(?:^|\n)%s\s*\n?\s*:" % re.escape(t), out[pos:])
-        if not m:
+        block = found.get(t)
+        if block is None:
             problems.append("theorem %s not found in audit output" % t)
             continue
-        block = out[pos:pos + m.start()]
-        pos = pos + m.end()
         if "Closed under the global context" in block:
             axioms[t] = []
             discharged += 1
             continue
-        names = re.findall(r"^([A-Za-z_][\w.']*)\s*:", block, flags=re.M)
+        body = block.split("Axioms:", 1)[1] if "Axioms:" in block else ""
+        names = re.findall(r"^([A-Za-z_][\w.']*)\s*:", body, flags=re.M)
         axioms[t] = names
         notallowed = [n for n in names if not n.startswith(ALLOWED_AXIOMS_PREFIX)]
-        if notallowed:
-            problems.append("theorem %s depends on axioms that are not allowed: %s" % (t, ", ".join(notallowed)))
+        if notallowed or not names:
+            problems.append("theorem %s depends on assumptions that are not allowed: %s" % (t, ", ".join(notallowed) or block[:300]))
         else:
             discharged += 1
     return len(theorems), discharged, axioms, problems
